@@ -4,9 +4,13 @@ package ws
 
 // C01_frame_io: ReadFrame/WriteFrame/CompileFrame = header codec + exactly Length payload bytes.
 func C01_frame_io() {
-	lens := []int{0, 1, 2, 3, 125, 126, 127}
+	lens := []int{0, 1, 2, 3, 4, 5, 7, 8, 9, 120, 121, 122, 123, 124, 125, 126, 127, 128}
 	if vTier() > 0 {
-		lens = append(lens, 65535, 65536)
+		lens = nil
+		for i := 0; i <= 140; i++ {
+			lens = append(lens, i)
+		}
+		lens = append(lens, 65535, 65536, 65537)
 	}
 	L := lens[vChoose("L", len(lens))]
 	var h Header
